@@ -126,6 +126,19 @@ func buildC10Gen(tier string) sim.Scenario {
 				seq, _ := strconv.Atoi(m[1])
 				rd, size, err := pl.Segment(seq)
 				if err != nil {
+					// with fragments this short the window may have moved on between the two calls: only a segment that
+					// is still listed has to resolve
+					still := false
+					if body2, err2 := pl.M3u8(""); err2 == nil {
+						if p2, err3 := oracle.ParseM3U8(string(body2)); err3 == nil {
+							for _, e2 := range p2.Entries {
+								still = still || e2.URI == e.URI
+							}
+						}
+					}
+					if !still {
+						continue
+					}
 					w.Fail("C10/playlist", "listed segment %d does not resolve: %s", seq, strings.ReplaceAll(err.Error(), dir, "<hlspath>"))
 					return
 				}
